@@ -763,7 +763,7 @@ class Exec:
         m = re.match(r"^(-?[0-9_]+)_(i8|i16|i32|i64|i128|isize|u8|u16|u32|u64|u128|usize)$", c)
         if m:
             return mk_int(int(m.group(1).replace("_", "")), m.group(2))
-        m = re.match(r"^(i8|i16|i32|i64|i128|isize|u8|u16|u32|u64|u128|usize)::(MIN|MAX)$", c)
+        m = re.match(r"^(?:core::num::<impl )?(i8|i16|i32|i64|i128|isize|u8|u16|u32|u64|u128|usize)>?::(MIN|MAX)$", c)
         if m:
             lo, hi = ty_range(m.group(1))
             return mk_int(lo if m.group(2) == "MIN" else hi, m.group(1))
